@@ -100,6 +100,7 @@ func runOffer(o *Out, r *rand.Rand, thorough bool, _ []string) {
 	if thorough {
 		n = 12000
 	}
+	n = shorter(n, thorough)
 	mn := newMemNet()
 	radius := new(uint256.Int).Lsh(uint256.NewInt(1), 255)
 	mk := func(port, limit, qcap int) *realNode {
@@ -371,6 +372,9 @@ func runOffer2(o *Out, r *rand.Rand, thorough bool, _ []string) {
 		rounds = 120
 	}
 	pairs := [][2][]uint8{{{0, 1}, {0, 1}}, {{0}, {0, 1}}, {{0, 1}, {0}}}
+	if metricsOn && !thorough {
+		rounds, pairs = 8, pairs[:1]
+	}
 	for pi, pr := range pairs {
 		mn := newMemNet()
 		a := startNode(mn, r, nodeOpts{ip: net.IP{34, 3, 3, byte(1 + pi)}, port: 9500, versions: pr[0], utpLimit: 50})
